@@ -558,13 +558,13 @@ impl Property for C08 {
 		"C08"
 	}
 	fn rule(&self) -> &'static str {
-		"each case configures every capacity (sub-tracks, send tracks, clocks, modulators, listeners, main-track sounds, per-track sounds and sub-tracks) from {0,1,2,3,5} and runs a history of up to 40 (thorough: 100) operations: create a resource of any kind (probe sounds on the main track or any track, sub-tracks of the manager or of any track, send tracks, clocks, tweeners, LFOs, listeners), drop any handle, let any probe sound finish, device callback. An accounting model (count = created and not yet removed; a marked resource leaves at the next callback if the audio thread had it, one later otherwise; a track leaves only when no live descendant needs it) predicts every creation result (success iff count < capacity, otherwise the documented limit error, never a panic) and every num_*() / capacity accessor after every step; probe sounds and effects record where they are destroyed (never inside a callback) and callbacks must not free memory. Stale ids: for clocks, modulators, listeners and send tracks a capacity-1 slot is reused 1..4 times and the old id must keep behaving as missing (sound on the old ClockId stops, parameter on the old ModulatorId holds, spatial track on the old ListenerId stays silent, route to the old SendTrackId feeds nothing). Non-trivial = a creation refused at full capacity, or a creation that fills the last slot after a removal; distinct = distinct decoded choices."
+		"each case configures every capacity (sub-tracks, send tracks, clocks, modulators, listeners, main-track sounds, per-track sounds and sub-tracks) from {0,1,2,3,5} and runs a history of up to 40 (thorough: 100) operations: create a resource of any kind (probe sounds on the main track or any track, sub-tracks of the manager or of any track, send tracks, clocks, tweeners, LFOs, listeners), drop any handle, let any probe sound finish, device callback. An accounting model (count = created and not yet removed; a marked resource leaves at the next callback if the audio thread had it, one later otherwise; a track leaves only when no live descendant needs it) predicts every creation result (success iff count < capacity, otherwise the documented limit error, never a panic) and every num_*() / capacity accessor after every step; probe sounds and effects record where they are destroyed (never inside a callback) and callbacks must not free memory. Stale ids: for clocks, modulators, listeners and send tracks a capacity-1 slot is reused 1..4 times and the old id must keep behaving as missing (sound on the old ClockId stops, parameter on the old ModulatorId holds, spatial track on the old ListenerId stays silent, route to the old SendTrackId feeds nothing). Schedules: with two real threads and hook H3 a creation (reserve a slot, drain the unused ring, push to the new-resource ring) races one callback's remove-and-add step (removal pass, refill) on the same pool in each of the ten possible orders, for modulators, main-track sounds, clocks and sub-tracks with k resources picked up, m of them marked and u not yet picked up: the creation succeeds iff fewer than capacity were alive or awaiting removal when the slot was reserved, the new resource is processed from the raced callback on iff it was pushed before the refill (else one callback later), counts balance after one more callback, nothing is destroyed or freed inside a callback (all scenarios up to capacity 2, thorough 3, are enumerated; larger ones are random). Non-trivial = a creation refused at full capacity, a creation that fills the last slot after a removal, or a schedule with marked or unpicked resources or a full pool; distinct = distinct decoded choices."
 	}
 	fn assumptions(&self) -> Vec<String> {
 		vec![
 			"callbacks run on the harness thread with an in-callback flag; 'destroyed on a caller's thread' is checked as 'never destroyed inside a callback' plus zero frees inside callbacks".into(),
 			"listeners have no count accessor; they are observed through creation results only".into(),
-			"interleavings of the create path with the audio thread's remove-and-add step inside the lock-free rings / arena (external crates) are exercised only at whole-operation granularity by this check".into(),
+			"interleavings of the create path with the audio thread's remove-and-add step are explored at the five H3 hook points (reserve, drain, push; removal pass, refill); orders inside the lock-free rings / arena of the external crates are not controlled".into(),
 		]
 	}
 	fn tape_len(&self, _tier: Tier) -> usize {
@@ -574,7 +574,28 @@ impl Property for C08 {
 		tier.pick(600_000, 10_000_000)
 	}
 
+	fn enumerations(&self, tier: Tier) -> Vec<crate::engine::Enumeration> {
+		// tape: [u32::MAX marker, index of the scenario]
+		let n = super::c08s::all_cases(tier.pick(2, 3)).len();
+		vec![crate::engine::Enumeration {
+			name: "every order of the create path (reserve, drain, push) against the audio thread's removal pass and refill, for every pool kind x capacity x picked x marked x unpicked (hook H3, two real threads)",
+			tapes: Box::new((0..n as u32).map(|i| vec![u32::MAX, i])),
+			exhaustive: true,
+		}]
+	}
+
 	fn run(&self, tape: &[u32], ctx: &mut Ctx) -> CaseResult {
+		if tape.len() == 2 && tape[0] == u32::MAX {
+			let all = super::c08s::all_cases(ctx.tier.pick(2, 3));
+			let sc = all[(tape[1] as usize).min(all.len() - 1)].clone();
+			ctx.describe(|| format!("{sc:?}"));
+			let nontrivial = super::c08s::run(&sc)?;
+			let mut info = CaseInfo::default();
+			info.nontrivial = nontrivial;
+			info.classes = vec!["create-vs-remove-and-add-schedule"];
+			info.hash = 0x5c4ed000_0000_0000 | tape[1] as u64;
+			return Ok(info);
+		}
 		let mut src = Src::new(tape);
 		let case = decode(&mut src, ctx.tier);
 		ctx.describe(|| format!("{case:?}"));
@@ -591,6 +612,25 @@ impl Property for C08 {
 			ctx.count("stale-id-scenarios", 1);
 			classes.push("stale-id-scenario");
 		}
+		let mut sched_nontrivial = false;
+		if src.chance(1, 25) {
+			// one schedule of the create path against the remove-and-add step (all of them are
+			// enumerated up to capacity 2 / 3; here larger pools)
+			let cap = src.usize_in(1, 5);
+			let picked = src.usize_in(0, cap);
+			let sc = super::c08s::SCase {
+				pool: super::c08s::POOLS[src.index(4)],
+				cap,
+				picked,
+				marked: src.usize_in(0, picked),
+				unpicked: src.usize_in(0, (cap - picked).min(2)),
+				order: src.index(10),
+			};
+			ctx.describe(|| format!("{sc:?}"));
+			sched_nontrivial = super::c08s::run(&sc)?;
+			ctx.count("create-vs-remove-and-add-schedules", 1);
+			classes.push("create-vs-remove-and-add-schedule");
+		}
 		if refusals > 0 {
 			classes.push("refused-at-capacity");
 		}
@@ -600,6 +640,6 @@ impl Property for C08 {
 		if case.caps.contains(&0) {
 			classes.push("capacity-0");
 		}
-		Ok(CaseInfo::new(&src, refusals > 0 || at_full_after_removal, classes))
+		Ok(CaseInfo::new(&src, refusals > 0 || at_full_after_removal || sched_nontrivial, classes))
 	}
 }
